@@ -14,6 +14,8 @@ OUTSIDE = "longer sequences (the chain int_to_tip partitions ALL integers into 9
 ASSUMPTIONS = ["oracle: mask = bitwise OR of 2^(n-1) over the distinct members; empty field for a single Tip.Any"]
 
 ELEMS = ["sym", "T1", "T3", "T8", "Any", 2.5, None]
+# an earlier call in the same process (another worklist) with this collection: the mask of the call under test must not depend on it
+PRIORS = [None, ["T3"], [4], ["T1", "T4"], [1, 8], [1, 2], [1, 2.0]]
 
 
 def shards(tier):
@@ -74,6 +76,15 @@ def scenario(ctx, p):
             elems = [mk_elem(ctx, k, f"t{i}") for i, k in enumerate(kinds)]
             tip = {"list": list, "tuple": tuple, "set": set, "gen": iter}[p["shape"]](elems)
         c.update(wl=wl, kinds=kinds, elems=elems, single=p["shape"] == "single")
+        if p["shape"] in ("list", "tuple") and p["n"] >= 1:
+            prior = ctx.choose("prior", PRIORS)
+            c["prior"] = prior
+            if prior is not None:
+                pt = [getattr(Tip, e) if isinstance(e, str) else e for e in prior]
+                try:
+                    getattr(ns.BaseWorklist(), p["ep"])("Q", 1, 5.0, tip=pt if p["shape"] == "list" else tuple(pt))
+                except ValueError:
+                    pass
         getattr(wl, p["ep"])("P", 1, 10.0, tip=tip)
         return wl
     if p["part"] == "transfer":
@@ -208,4 +219,4 @@ def common_half():
 
 def describe(ctx, p, outcome):
     c = ctx.ctx
-    return f"  {p} tips={c.get('elems')!r} volumes={c.get('vols')!r}\n  records={list(c['wl']) if 'wl' in c else None}"
+    return f"  {p} earlier call with tip={c.get('prior')!r}; tips={c.get('elems')!r} volumes={c.get('vols')!r}\n  records={list(c['wl']) if 'wl' in c else None}"
